@@ -625,7 +625,20 @@ func (l *IPFSLog) Join(otherLog iface.IPFSLog, size int) (iface.IPFSLog, error) 
 		}
 	}
 
-	l.heads = entry.NewOrderedMapFromEntries(mergedHeads)
+	// Keep our own entry objects as heads: the ones handed in by the other log
+	// for entries we already had were not verified
+	ownHeads := make([]iface.IPFSLogEntry, 0, len(mergedHeads))
+	for _, e := range mergedHeads {
+		if e == nil {
+			continue
+		}
+
+		if own, ok := l.Entries.Get(e.GetHash().String()); ok {
+			ownHeads = append(ownHeads, own)
+		}
+	}
+
+	l.heads = entry.NewOrderedMapFromEntries(ownHeads)
 
 	if size > -1 {
 		tmp := l.values().Slice()
